@@ -257,7 +257,7 @@ type bpEval struct {
 	invoke      func(call *ssa.Call, fr *bpFrame) (pval, bool)
 	laneHeaders map[*ssa.BasicBlock]bool // headers of the loops whose index is used as a lane
 	stopped     bool
-	captured    pval // what the hook captured when it stopped the walk
+	captured    pval            // what the hook captured when it stopped the walk
 	joinAt      *ssa.BasicBlock // a side of an if-converted branch stops here
 }
 
